@@ -148,7 +148,7 @@ theorem handleMsg_no_panic {v : Variant} {cfg : Cfg} (hs : Safe v cfg) (s : Sess
 theorem parseFrame_repaired {v : Variant} (h : v.frame = true) (buf : Bytes) :
     parseFrame v buf ≠ .panic ∧ parseFrame v buf ≠ .stall := by
   unfold parseFrame
-  simp only [h, Bool.true_and, decide_eq_true_eq]
+  simp only [h, Bool.true_and, Bool.or_eq_true, decide_eq_true_eq]
   split
   · simp
   · split
@@ -481,7 +481,7 @@ theorem C06bgp_frame_progress {v : Variant} {buf f rest : Bytes} (h : parseFrame
           simp only [List.take_append_drop, List.length_take, List.length_drop, true_and]
           refine ⟨by omega, by omega, ?_⟩
           intro hf
-          simp only [hf, Bool.true_and, decide_eq_true_eq] at hbad
+          simp only [hf, Bool.true_and, Bool.or_eq_true, decide_eq_true_eq] at hbad
           omega
 
 example : parseFrame .asWritten (M16 ++ [0, 19, 4, 255]) = .frame (M16 ++ [0, 19, 4]) [255] := by decide
